@@ -16,6 +16,7 @@ from typing import Optional
 from typing import TypeVar
 from typing import Union
 
+from . import _verif
 from .exceptions import JSONPathIndexError
 from .exceptions import JSONPathTypeError
 from .serialize import canonical_string
@@ -624,6 +625,8 @@ class Filter(JSONPathSelector):
             expr = self.expression.cache_tree()
         else:
             expr = self.expression
+        if _verif.ENABLED:
+            _rid = _verif.resolution(self, expr, expr is not self.expression)
 
         for match in matches:
             if isinstance(match.obj, Mapping):
@@ -635,6 +638,8 @@ class Filter(JSONPathSelector):
                         extra_context=match.filter_context(),
                         current_key=key,
                     )
+                    if _verif.ENABLED:
+                        _verif.bind(context, _rid)
                     try:
                         if expr.evaluate(context):
                             _match = self.env.match_class(
@@ -661,6 +666,8 @@ class Filter(JSONPathSelector):
                         extra_context=match.filter_context(),
                         current_key=i,
                     )
+                    if _verif.ENABLED:
+                        _verif.bind(context, _rid)
                     try:
                         if expr.evaluate(context):
                             _match = self.env.match_class(
@@ -685,6 +692,8 @@ class Filter(JSONPathSelector):
             expr = self.expression.cache_tree()
         else:
             expr = self.expression
+        if _verif.ENABLED:
+            _rid = _verif.resolution(self, expr, expr is not self.expression)
 
         async for match in matches:
             if isinstance(match.obj, Mapping):
@@ -696,6 +705,8 @@ class Filter(JSONPathSelector):
                         extra_context=match.filter_context(),
                         current_key=key,
                     )
+                    if _verif.ENABLED:
+                        _verif.bind(context, _rid)
 
                     try:
                         result = await expr.evaluate_async(context)
@@ -725,6 +736,8 @@ class Filter(JSONPathSelector):
                         extra_context=match.filter_context(),
                         current_key=i,
                     )
+                    if _verif.ENABLED:
+                        _verif.bind(context, _rid)
 
                     try:
                         result = await expr.evaluate_async(context)
